@@ -5,8 +5,17 @@ export GOFLAGS=-mod=mod GOPROXY=off GOSUMDB=off GOTOOLCHAIN=local
 HERE=$(cd "$(dirname "$0")" && pwd)
 cd "$HERE/harness" || exit 2
 mkdir -p "$HERE/.build"
+# VERIF_REPO (default /repo) lets the same checks run against a scratch worktree of the library.
+REPO="${VERIF_REPO:-/repo}"
+export VERIF_REPO="$REPO"
+MODFLAG=""
+if [ "$REPO" != "/repo" ]; then
+  sed "s#=> /repo#=> $REPO#" go.mod > "$HERE/.build/go.$$.mod"
+  cp go.sum "$HERE/.build/go.$$.sum"
+  MODFLAG="-modfile=$HERE/.build/go.$$.mod"
+fi
 BIN="$HERE/.build/verif.$$"
-trap 'rm -f "$BIN"' EXIT
+trap 'rm -f "$BIN" "$HERE/.build/go.$$.mod" "$HERE/.build/go.$$.sum"' EXIT
 OVFLAGS=""
 case "$1" in
   C12|C20) MODE=time ;;
@@ -16,14 +25,14 @@ esac
 if [ -n "$MODE" ]; then
   # Instrumented copies of the CURRENT library sources (virtual clock seam / yield points); /repo is not touched.
   OVDIR="$HERE/.build/overlay.$$"
-  trap 'rm -rf "$BIN" "$OVDIR"' EXIT
-  if ! go run ./cmd/instr -repo /repo -out "$OVDIR" -mode "$MODE" >"$HERE/.build/build.$$.log" 2>&1; then
+  trap 'rm -rf "$BIN" "$OVDIR" "$HERE/.build/go.$$.mod" "$HERE/.build/go.$$.sum"' EXIT
+  if ! go run $MODFLAG ./cmd/instr -repo "$REPO" -out "$OVDIR" -mode "$MODE" >"$HERE/.build/build.$$.log" 2>&1; then
     echo "HARNESS-ERROR cannot instrument /repo's working tree:"; cat "$HERE/.build/build.$$.log"; rm -f "$HERE/.build/build.$$.log"; exit 2
   fi
   OVFLAGS="-overlay $OVDIR/overlay.json"
   export VERIF_OVERLAY="$MODE" VERIF_OVERLAY_DIR="$OVDIR"
 fi
-if ! go build $OVFLAGS -o "$BIN" ./cmd/verif 2>"$HERE/.build/build.$$.log"; then
+if ! go build $MODFLAG $OVFLAGS -o "$BIN" ./cmd/verif 2>"$HERE/.build/build.$$.log"; then
   echo "HARNESS-ERROR harness does not build against /repo's working tree:"
   cat "$HERE/.build/build.$$.log"; rm -f "$HERE/.build/build.$$.log"
   exit 2
@@ -32,8 +41,8 @@ rm -f "$HERE/.build/build.$$.log"
 if [ "$1" = "C16" ]; then
   # free-running pass under the race detector: same bodies, uninstrumented library
   RACEBIN="$HERE/.build/verif-race.$$"
-  trap 'rm -rf "$BIN" "$OVDIR" "$RACEBIN"' EXIT
-  if go build -race -o "$RACEBIN" ./cmd/verif 2>"$HERE/.build/build.$$.log"; then
+  trap 'rm -rf "$BIN" "$OVDIR" "$RACEBIN" "$HERE/.build/go.$$.mod" "$HERE/.build/go.$$.sum"' EXIT
+  if go build $MODFLAG -race -o "$RACEBIN" ./cmd/verif 2>"$HERE/.build/build.$$.log"; then
     export VERIF_RACE_BIN="$RACEBIN"
   else
     echo "note: -race build unavailable, race pass skipped:"; head -5 "$HERE/.build/build.$$.log"
